@@ -51,7 +51,7 @@ let parse_history s =
 let dispatch hist mthex truth =
   let reg = Stdlib.List.fold_left DispatchModel.reg_step DispatchModel.reg_init (parse_history hist) in
   let ((mt, _hasmap), params) = DispatchModel.mediatype (hexd mthex) in
-  let pmatch p _ = let i = int_of_nat p in truth <> "-" && i < sl truth && truth.[i] = '1' in
+  let pmatch p _ = let i = int_of_nat p in truth <> "-" && i < sl truth && (Stdlib.String.get truth (i)) = '1' in
   let served = DispatchModel.served pmatch reg mt in
   let m = DispatchModel.match_q pmatch reg mt in
   Printf.sprintf "served=%s mt=%s params=%s match=%s"
@@ -83,7 +83,7 @@ let tokbuf toks ops =
 let parse_script s =
   if s = "" then [] else
   Stdlib.List.map (fun t ->
-    if t.[0] = 'C' then StreamModel.Chunk (hexd (Stdlib.String.sub t 1 (sl t - 1)))
+    if (Stdlib.String.get t (0)) = 'C' then StreamModel.Chunk (hexd (Stdlib.String.sub t 1 (sl t - 1)))
     else StreamModel.Fail (nat_of_int (int_of_string (Stdlib.String.sub t 1 (sl t - 1))))) (split ',' s)
 let stream_case entry probe writes ending script wf =
   let ws = if writes = "" then [] else Stdlib.List.map hexd (split ',' writes) in
@@ -152,7 +152,7 @@ let http_case tbl ext script =
   let lookup mt = Stdlib.List.assoc_opt (hexe mt) entries in
   let ops = if script = "" then [] else Stdlib.List.map (fun o ->
       let rest = Stdlib.String.sub o 1 (sl o - 1) in
-      match o.[0] with
+      match (Stdlib.String.get o (0)) with
       | 'T' -> StreamHttp.SetCT (hexd (if rest = "" then "-" else rest))
       | 'L' -> StreamHttp.SetCL
       | 'H' -> StreamHttp.WriteHeader
@@ -205,8 +205,42 @@ let rename_case alpha scopes origs =
 let pathsep_case desc =
   let items = if desc = "" then [] else Stdlib.List.map (fun d ->
       let rest = Stdlib.String.sub d 1 (sl d - 1) in
-      if d.[0] = 'F' then PathSep.IFlag (rest = "1") else PathSep.INum (hexd rest)) (split ',' desc) in
+      if (Stdlib.String.get d (0)) = 'F' then PathSep.IFlag (rest = "1") else PathSep.INum (hexd rest)) (split ',' desc) in
   hexe (PathSep.emit PathSep.st_cmd items)
+
+
+(* ---- Js printer (parenthesis decisions) ---- *)
+let js_surface = [
+  "EqToken","="; "AddEqToken","+="; "SubEqToken","-="; "MulEqToken","*="; "DivEqToken","/="; "ModEqToken","%="; "ExpEqToken","**=";
+  "LtLtEqToken","<<="; "GtGtEqToken",">>="; "GtGtGtEqToken",">>>="; "BitAndEqToken","&="; "BitXorEqToken","^="; "BitOrEqToken","|=";
+  "AndEqToken","&&="; "OrEqToken","||="; "NullishEqToken","??="; "CommaToken",","; "NullishToken","??"; "OrToken","||"; "AndToken","&&";
+  "BitOrToken","|"; "BitXorToken","^"; "BitAndToken","&"; "EqEqToken","=="; "NotEqToken","!="; "EqEqEqToken","==="; "NotEqEqToken","!==";
+  "LtToken","<"; "LtEqToken","<="; "GtToken",">"; "GtEqToken",">="; "LtLtToken","<<"; "GtGtToken",">>"; "GtGtGtToken",">>>";
+  "AddToken","+"; "SubToken","-"; "MulToken","*"; "DivToken","/"; "ModToken","%"; "ExpToken","**";
+  "BitNotToken","~"; "TypeofToken","typeof"; "PosToken","+"; "NegToken","-"; "PreIncrToken","++"; "PreDecrToken","--";
+  "PostIncrToken","++"; "PostDecrToken","--"; "NotToken","!"; "VoidToken","void"; "DeleteToken","delete"; "AwaitToken","await" ]
+let jsprint_case sx =
+  let toks = ref (Stdlib.List.filter (fun x -> x <> "") (split ' ' sx)) in
+  let next () = match !toks with t :: r -> toks := r; t | [] -> failwith "jsprint sexpr" in
+  let rec parse () =
+    match next () with
+    | "A" -> PrintModel.EAtom (coq_string (next ()))
+    | "G" -> PrintModel.EGroup (parse ())
+    | "B" -> let op = coq_string (next ()) in let x = parse () in let y = parse () in PrintModel.EBin (op, x, y)
+    | "P" -> let op = coq_string (next ()) in PrintModel.EPre (op, parse ())
+    | "Q" -> let op = coq_string (next ()) in PrintModel.EPost (op, parse ())
+    | "C" -> let c = parse () in let x = parse () in let y = parse () in PrintModel.ECond (c, x, y)
+    | "K" -> let f = parse () in let a = parse () in PrintModel.ECall (f, a)
+    | "D" -> let n = coq_string (next ()) in let fl = next () = "1" in let x = parse () in PrintModel.EDot (x, n, fl)
+    | "I" -> let fl = next () = "1" in let x = parse () in let i = parse () in PrintModel.EIndex (x, i, fl)
+    | t -> failwith ("jsprint tag " ^ t) in
+  let e = parse () in
+  let out = PrintGen.print_gen PrintModel.coq_OpAssign e in
+  Stdlib.String.concat " " (Stdlib.List.map (function
+    | PrintModel.TAtom s -> ocaml_string s
+    | PrintModel.TOp n -> (try Stdlib.List.assoc (ocaml_string n) js_surface with Not_found -> "?" ^ ocaml_string n)
+    | PrintModel.TQ -> "?" | PrintModel.TColon -> ":" | PrintModel.TL -> "(" | PrintModel.TR -> ")"
+    | PrintModel.TLB -> "[" | PrintModel.TRB -> "]" | PrintModel.TDot -> ".") out)
 
 let register (reg : string -> (string list -> string) -> unit) =
   reg "json_events" (function [k; evs] -> hexe (JsonModel.json_minify_events (k = "1") (parse_events evs))
@@ -229,5 +263,6 @@ let register (reg : string -> (string list -> string) -> unit) =
   reg "get_name" (function [a; i] -> let (st, ct) = alphabets a in hexe (RenameModel.get_name st ct (z_of_int (int_of_string i))) | _ -> "BADARGS");
   reg "rename" (function [a; sc; o] -> rename_case a sc o | [a; sc] -> rename_case a sc "" | _ -> "BADARGS");
   reg "pathsep" (function [d] -> pathsep_case d | [] -> pathsep_case "" | _ -> "BADARGS");
+  reg "jsprint" (function [sx] -> jsprint_case sx | _ -> "BADARGS");
   reg "tokbuf" (function [t; o] -> tokbuf t o | _ -> "BADARGS");
   reg "json_tree" (function [t] -> show_events (JsonSpec.events_of JsonModel.SValue (parse_tree t)) | _ -> "BADARGS")
